@@ -6,6 +6,7 @@ from ..rules import compiler_rules, operators, tables
 def run(ctx, rep):
     tables.rule_operator_tables(ctx, rep, "C06-R1")
     compiler_rules.rule_operator_used(ctx, rep, "C06-R2")
+    operators.rule_bool_is_not_a_number(ctx, rep, "C06-R4")
     operators.rule_unordered_comparisons(ctx, rep, "C06-R6")
     operators.rule_host_operator_pitfalls(ctx, rep, "C06-R7")
     rep.undecided += [
